@@ -211,7 +211,7 @@ Section Static.
     | EInfix o e1 e2 => supported e1 && (supported e2 && sup_infix o (isnum e1) (isnum e2))
     | EPow e1 _ | EGrade e1 _ | ECoeff e1 _ | EDual e1 _ | EUndual e1 _ | ENorm e1 | ENormalized e1 =>
         supported e1 && negb (isnum e1)
-    | ECall _ args => forallb (fun a => supported a && negb (isnum a)) args
+    | ECall _ args => forallb supported args && existsb (fun a => negb (isnum a)) args
     end.
 End Static.
 
@@ -1309,12 +1309,13 @@ Section Abstract.
     DS venv1 v (RRec ks (TArg i)) -> DS venv2 v (RRec ks (TArg i)).
   Proof. intros E [Hk [vs [Hr H]]]. split; [exact Hk|]. exists vs. cbn in *. rewrite <- E. auto. Qed.
 
-  Lemma existsb_rnum_all_some (rs : list rv) : all_some (map rkeys rs) = None -> existsb is_rnum rs = true.
+  Lemma DS_asrec venv' (v : vl) (r : rv) : DS venv' v r -> DS venv' v (mk (as_rec r)).
   Proof.
-    induction rs as [|r rs IH]; cbn; [discriminate|]. destruct r as [c|ks t]; cbn; [reflexivity|].
-    destruct (all_some (map rkeys rs)); [discriminate|]. intros _. apply IH. reflexivity.
+    destruct r as [c|ks t]; cbn [as_rec mk fst snd]; [|intros H; exact H].
+    intros E. cbn in E. subst v. split; [exact wfk_0|]. exists [c]. cbn. repeat split; auto.
   Qed.
-
+  Lemma is_rec_rnum (r : rv) : is_rec r = negb (is_rnum r).
+  Proof. destruct r; reflexivity. Qed.
   Lemma call_args_values venv' vs kts : Forall2 (DS venv') vs (map mk kts) ->
     exists xs', Forall2 (fun v x' => Permutation (as_mv v) x') vs xs' /\ map keys xs' = map fst kts /\
                 mapM (run venv') (map snd kts) = Ok (map vals xs').
@@ -1401,12 +1402,11 @@ Section Abstract.
       assert (HA : forall args0 vs0, forallb noswap args0 = true -> mapM (dir fu env) args0 = Ok vs0 ->
                  Forall wfv vs0 /\
                  match mapM (rec_ fu kenv') args0 with
-                 | Err _ => forallb (fun a => supported a && negb (isnum a)) args0 = false
-                 | Ok rs => Forall2 (DS venv') vs0 rs /\
-                            (existsb is_rnum rs = true -> forallb (fun a => supported a && negb (isnum a)) args0 = false)
+                 | Err _ => forallb supported args0 = false
+                 | Ok rs => Forall2 (DS venv') vs0 rs /\ existsb is_rec rs = existsb (fun a => negb (isnum a)) args0
                  end).
-      { intros args0. induction args0 as [|a0 args0 IHa]; intros vs0 Hn0 Hm0; cbn [mapM forallb] in *.
-        - inversion Hm0; subst. split; [constructor|]. split; [constructor | discriminate].
+      { intros args0. induction args0 as [|a0 args0 IHa]; intros vs0 Hn0 Hm0; cbn [mapM forallb existsb] in *.
+        - inversion Hm0; subst. split; [constructor|]. split; [constructor | reflexivity].
         - apply andb_true_iff in Hn0. destruct Hn0 as [Hna Hn0].
           inv_bindn Hm0 as y0 Hy0. inv_bindn Hm0 as ys Hys. inversion Hm0; subst vs0. clear Hm0.
           destruct (IH a0 env env' y0 Hw Hp Hna Hy0) as [Hwy M]. fold venv' kenv' in M.
@@ -1414,10 +1414,8 @@ Section Abstract.
           split; [constructor; assumption|].
           destruct (rec_ fu kenv' a0) as [r0|er]; cbn [bind].
           + destruct M as [D0 S0]. destruct (mapM (rec_ fu kenv') args0) as [rs|er]; cbn [bind].
-            * destruct Mys as [Ds Es]. split; [constructor; assumption|]. cbn [existsb]. intros He.
-              apply orb_true_iff in He. destruct He as [He|He].
-              -- rewrite <- S0, He. cbn. rewrite andb_false_r. reflexivity.
-              -- rewrite (Es He). apply andb_false_r.
+            * destruct Mys as [Ds Es]. split; [constructor; assumption|]. cbn [existsb].
+              rewrite Es, is_rec_rnum, S0. reflexivity.
             * rewrite Mys. apply andb_false_r.
           + rewrite M. reflexivity. }
       destruct (HA args vs Hns Hvs) as [Hwvs MA].
@@ -1426,18 +1424,18 @@ Section Abstract.
       assert (Hrefl : Forall2 (@Permutation (Z * R)) (map as_mv vs) (map as_mv vs)).
       { clear. induction (map as_mv vs); constructor; [apply Permutation_refl | assumption]. }
       assert (Hwm : wfm m) by exact (proj1 (registered_perm fu k _ _ m Hwxs Hrefl Hm)).
-      destruct (mapM (rec_ fu kenv') args) as [rs|er]; cbn [bind]; [|split; [exact Hwm | exact MA]].
-      destruct MA as [Ds Es].
-      destruct (all_some (map rkeys rs)) as [kts|] eqn:Has.
-      + apply all_some_inv in Has. subst rs.
-        destruct (call_args_values venv' vs kts Ds) as [xs' [Fp [Ek Em]]].
-        assert (Hpx : Forall2 (@Permutation (Z * R)) (map as_mv vs) xs').
-        { clear -Fp. induction Fp; cbn; constructor; assumption. }
-        destruct (registered_perm fu k _ xs' m Hwxs Hpx Hm) as [_ [body [ko' [tb' [vs' [Eb [Er [Erun [Hl [Hk Hpm]]]]]]]]]].
-        rewrite Eb. cbn [of_opt bind]. rewrite <- Ek, Er. cbn [bind].
-        apply Step_ok; [exact Hwm | | reflexivity].
-        split; [exact Hk|]. exists vs'. rewrite run_TCall, Em. cbn [bind]. repeat split; assumption.
-      + split; [exact Hwm|]. apply Es. apply existsb_rnum_all_some. exact Has.
+      destruct (mapM (rec_ fu kenv') args) as [rs|er]; cbn [bind]; [|split; [exact Hwm | rewrite MA; reflexivity]].
+      destruct MA as [Ds Es]. rewrite Es.
+      destruct (existsb (fun a => negb (isnum a)) args); cbn [negb]; [|split; [exact Hwm | apply andb_false_r]].
+      assert (Ds2 : Forall2 (DS venv') vs (map mk (map as_rec rs))).
+      { clear -Ds. induction Ds; cbn; constructor; [apply DS_asrec|]; assumption. }
+      destruct (call_args_values venv' vs (map as_rec rs) Ds2) as [xs' [Fp [Ek Em]]].
+      assert (Hpx : Forall2 (@Permutation (Z * R)) (map as_mv vs) xs').
+      { clear -Fp. induction Fp; cbn; constructor; assumption. }
+      destruct (registered_perm fu k _ xs' m Hwxs Hpx Hm) as [_ [body [ko' [tb' [vs' [Eb [Er [Erun [Hl [Hk Hpm]]]]]]]]]].
+      rewrite Eb. cbn [of_opt bind]. rewrite <- Ek, Er. cbn [bind].
+      apply Step_ok; [exact Hwm | | reflexivity].
+      split; [exact Hk|]. exists vs'. rewrite run_TCall, Em. cbn [bind]. repeat split; assumption.
   Qed.
 
   (* ---------------- the two clauses of C11 for the registered function g_k ---------------- *)
